@@ -278,6 +278,82 @@ def _container_roots(f, l):
     return out
 
 
+LEN_MUTATORS = {"push", "pop", "resize", "resize_with", "truncate", "extend", "extend_from_slice", "append", "clear", "insert",
+                "remove", "swap_remove", "drain", "retain", "dedup", "split_off", "set_len", "push_str"}
+
+
+def _value_terms(f, op):
+    """canonical terms equal to the integer denoted by `op`: ('c', constant identity), ('len', container local),
+    ('v', single-definition local)."""
+    c = op_const(op)
+    if c is not None:
+        ident = c.get("uneval") or c.get("uneval_def") or c.get("tyconst")
+        if ident:
+            return {("c", str(ident))}
+        return {("c", str(c.get("v")), str(c.get("ty")))} if c.get("v") is not None else set()
+    l = op_local(op)
+    if l is None or len(op_place(op)) != 1:
+        return set()
+    out = set()
+    for x in f.copy_chain(l):
+        if len(f.defs(x)) <= 1:
+            out.add(("v", x))
+        for d in f.defs(x):
+            if d["kind"] == "assign" and d["rv"][0] == "use" and op_const(d["rv"][1]) is not None and len(f.defs(x)) == 1:
+                out |= _value_terms(f, d["rv"][1])
+    roots = _is_len_of(f, op, None)
+    for r in roots or ():
+        out.add(("len", r))
+    return out
+
+
+def _length_terms(f, op, depth=0):
+    """canonical terms equal to the length of the slice / Vec denoted by `op` (a sub-slice `base[..e]` has length e
+    whenever the indexing itself did not panic)."""
+    l = op_local(op)
+    if l is None or depth > 4:
+        return set()
+    out = set()
+    roots = _container_roots(f, l)
+    for r in roots:
+        out.add(("len", r))
+        # ("call-mut" pseudo-definitions = the container lent mutably to a call: a slice cannot change its length
+        # that way, a Vec only through one of LEN_MUTATORS, checked below)
+        ds = [d for d in f.defs(r) if d.get("p") and len(d["p"]) == 1 and d["kind"] in ("assign", "call")]
+        if len(ds) != 1 or ds[0]["kind"] != "call":
+            continue
+        t = ds[0]["term"]
+        nm = (callee_of(t) or {}).get("name")
+        if nm == "from_elem" and len(t["a"]) == 2:
+            # vec![x; n]: length n as long as nothing resizes the vector
+            mutated = any((callee_of(t2) or {}).get("name") in LEN_MUTATORS and t2["a"] and op_local(t2["a"][0]) is not None and
+                          r in _container_roots(f, op_local(t2["a"][0])) for b2, t2 in f.calls() if not f.is_cleanup(b2))
+            if not mutated:
+                out |= _value_terms(f, t["a"][1])
+        if nm in ("index", "index_mut") and len(t["a"]) == 2 and op_local(t["a"][1]) is not None:
+            for x in f.copy_chain(op_local(t["a"][1])):
+                for d in f.defs(x):
+                    if d["kind"] == "assign" and d["rv"][0] == "agg" and d["rv"][1].get("adt") == "core::ops::range::RangeTo":
+                        out |= _value_terms(f, d["rv"][2][0])
+    return out
+
+
+def _guarded_le(an, f, small, big, pos):
+    """is there a dominating comparison establishing x <= y (or x < y) with x in `small` and y in `big` (term sets)?"""
+    for g in an.guards(f):
+        if g["kind"] != "cmp":
+            continue
+        ta, tb = _value_terms(f, g["a"]), _value_terms(f, g["b"])
+        for edges, rel in ((g["true_edges"], g["op"]), (g["false_edges"], intervals.CMP_NEG[g["op"]])):
+            if not edges or not an._edge_dominates(f, edges, pos):
+                continue
+            if rel in ("Lt", "Le") and ta & small and tb & big:
+                return "dominated by the guard `range end %s collection length`" % ("<" if rel == "Lt" else "<=")
+            if rel in ("Gt", "Ge") and tb & small and ta & big:
+                return "dominated by the guard `collection length %s range end`" % (">" if rel == "Gt" else ">=")
+    return None
+
+
 def _range_loop_bound(an, f, idx_op, pos):
     """if idx is the item of `for idx in a..b`, return (loop, end operand, end position)."""
     from .rules.c03 import for_loops
@@ -486,11 +562,20 @@ def discharge(an, f, s, reach_feasible=None):
                         return True, "range %s..%s inside length %s" % (_fmt(s0), _fmt(e0), _fmt(ln))
                     if kind_ == "from" and s0 and s0[1] <= ln[0]:
                         return True, "range start %s <= length %s" % (_fmt(s0), _fmt(ln))
+                # relational: `..e` with e <= len(collection) by a dominating comparison on the same quantities
+                for x in f.copy_chain(op_local(args[1])):
+                    for d in f.defs(x):
+                        if d["kind"] == "assign" and d["rv"][0] == "agg" and d["rv"][1].get("adt") == "core::ops::range::RangeTo":
+                            how = _guarded_le(an, f, _value_terms(f, d["rv"][2][0]), _length_terms(f, args[0]), pos)
+                            if how:
+                                return True, how
                 return False, "range index not shown inside the collection"
         if name in ("copy_from_slice", "clone_from_slice") and len(args) == 2:
             a, b = an.len_of(f, args[0], pos), an.len_of(f, args[1], pos)
             if a and b and a[0] == a[1] == b[0] == b[1]:
                 return True, "both slices have length %d" % a[0]
+            if _length_terms(f, args[0]) & _length_terms(f, args[1]):
+                return True, "both slices have the same symbolic length (a `..n` sub-slice and a slice of length n)"
             return False, "slice lengths %s and %s not shown equal" % (_fmt(a), _fmt(b))
         if name in ("unwrap", "expect") and args:
             # <&[T] as TryInto<[T; N]>>::try_into(..).unwrap(): fine when the slice length is N
